@@ -148,13 +148,21 @@ pub fn step_cfg(step: u8) -> Cfg {
     }
 }
 
-/// The same configuration step read off a different clock: variant 2 puts `now` 750 ms after
+/// The same configuration step read off a different clock: variant 1 configures the offset +09:00
+/// (both spellings) and a clock nine hours earlier, variant 2 puts `now` 750 ms after
 /// T_k (at step 2 that is 250 ms before T_3, at step 0 250 ms before T_1: still not expired),
 /// variant 3 puts it 250 ms after T_k, spelled in the +09:00 zone, with the target names in
 /// reverse order. Readiness of every level is the same as under `step_cfg(step)`.
 pub fn step_cfg_var(step: u8, var: u64) -> Cfg {
     let mut c = step_cfg(step);
     match var % 4 {
+        1 => {
+            // another configured offset: the `to` values are wall-clock times at that offset, so
+            // the same readiness needs a clock reading nine hours earlier
+            let e = crate::refmodel::parse_rfc3339(&c.now).expect("step clock");
+            c.now = crate::refmodel::fmt_rfc3339(e - 32400, if var % 8 == 1 { 0 } else { -18000 });
+            c.offset = if var % 8 == 1 { "+09:00".to_string() } else { "+0900".to_string() };
+        }
         2 => c.now = format!("{}.750{}", &c.now[..19], &c.now[19..]),
         3 => {
             let e = crate::refmodel::parse_rfc3339(&c.now).expect("step clock");
@@ -228,7 +236,13 @@ pub fn tag_body(e: &Elem, sp: &Sp, multiline: bool) -> String {
         attrs.push(if r.chance(1, 12) { format!("unwrap-block={q}{q}") } else { "unwrap-block".into() });
     }
     if e.skip {
-        attrs.push(if r.chance(1, 12) { format!("skip={q}no{q}") } else { "skip".into() });
+        attrs.push(if r.chance(1, 12) {
+            // a skip attribute is a skip attribute whatever value it is given
+            let v: &str = *r.pick(&["no", "false", "0", "", "off"]);
+            format!("skip={q}{v}{q}")
+        } else {
+            "skip".into()
+        });
     }
     if r.chance(1, 4) {
         let other = if q == '"' { '\'' } else { '"' };
